@@ -129,6 +129,28 @@ def concretise(shape, pick):
     return out
 
 
+SWEEP_Q = list(range(0, 71)) + [127, 128, 129, 254, 255, 256, 257, 258, 1023, 1024, 1025]
+SWEEP_T = SWEEP_Q + list(range(71, 127)) + list(range(130, 254)) + [511, 512, 513, 2047, 2048, 2049, 4095, 4096, 4097]
+
+
+def length_sweep(quick):
+    """Concrete streams whose only interesting feature is the byte length of a string, key or byte-array:
+    encoders and parsers keep fixed scratch buffers (16, 64 bytes, ...) and length-class switches (23/24, 255/256),
+    and a boundary is only met by a text of exactly that length."""
+    out = []
+    for L in (SWEEP_Q if quick else SWEEP_T):
+        txt = [97 + (j % 26) for j in range(L)]
+        out.append([ev("str", "str", txt)])
+        out.append([ev("str", "strref", txt)])
+        out.append([ev("objS", "objS", (), -1, "any"), ev("key", "key", txt), ev("int", "int", canon(L)), ev("objE", "objE")])
+        out.append([ev("objS", "objS", (), 1, "any"), ev("key", "keyref", txt), ev("str", "str", txt), ev("objE", "objE")])
+        if L <= 300:
+            out.append([ev("xarr", "bytes", (), 0, "", [dict(key=[], v=canon(b), i=[], s=[]) for b in txt])])
+            out.append([ev("arrS", "arrS", (), -1, "any")] + [ev("nil", "nil")] * min(L, 40) + [ev("arrE", "arrE")])
+            out.append([ev("arrS", "arrS", (), min(L, 40), "any")] + [ev("bool", "bool", [1])] * min(L, 40) + [ev("arrE", "arrE")])
+    return out
+
+
 def fills(shape, nfills, rnd):
     """Concrete streams for a shape: every table entry for single-slot shapes
     (exhaustive), nfills rotating/seeded fills otherwise."""
